@@ -78,3 +78,47 @@ Definition body_events (l : list node) (last : option (Z * Z * Z * Z * Z)) : lis
                      | Some (ns, ne, colon, vs, ve) => [mkEv PropertyName ns ne colon; mkEv PropertyValue vs ve (-1)]
                      | None => []
                      end.
+
+(* -------- the same with the third way a body can end: the last declaration is `name :`
+   followed by blanks / comments only, up to the end of the body -- no value and no `;`
+   (`a { color: }`).  The scanner, run on the body alone, reports just the name with the
+   offset of the colon as delimiter.  Such a declaration has an empty value placed at the end
+   of the body (where the terminator would be), no value tokens, and ends there. *)
+Inductive body_tail :=
+| TailNone                                  (* every declaration is terminated by `;` *)
+| TailValue (ns ne colon vs ve : Z)         (* name : value <end of body> *)
+| TailEmpty (ns ne colon : Z).              (* name : <end of body> *)
+
+Definition zlen_frag (fragment : str) : Z := Z.of_nat (length fragment).
+
+Definition tail_events (t : body_tail) : list event :=
+  match t with
+  | TailNone => []
+  | TailValue ns ne colon vs ve => [mkEv PropertyName ns ne colon; mkEv PropertyValue vs ve (-1)]
+  | TailEmpty ns ne colon => [mkEv PropertyName ns ne colon]
+  end.
+Definition body_events_tail (l : list node) (t : body_tail) : list event := events_forest l ++ tail_events t.
+
+Definition props_spec_tail (fragment : str) (from : Z) (l : list node) (t : body_tail) : list css_property :=
+  let '(ps, b) := props_items fragment from from l in
+  ps ++ match t with
+        | TailNone => []
+        | TailValue ns ne colon vs ve => [property_of fragment from b ns ne vs ve (from + ve)]
+        | TailEmpty ns ne colon =>
+            let e := zlen_frag fragment in
+            [property_of fragment from b ns ne e e (from + e)]
+        end.
+
+(* the recorded colon offset really is a colon of the body text *)
+Definition colon_at (fragment : str) (colon : Z) : Prop :=
+  0 <= colon /\ nth_error fragment (Z.to_nat colon) = Some c_colon.
+Definition tail_ok (fragment : str) (t : body_tail) : Prop :=
+  match t with
+  | TailEmpty ns ne colon => colon_at fragment colon
+  | _ => True
+  end.
+
+(* a trailing name WITHOUT a colon (`a { b:c; color }`, delimiter -1, or `a { color; }`, where the
+   scanner hands over the offset of the `;`) is not a declaration: nothing is reported for it *)
+Definition no_colon_at (fragment : str) (d : Z) : Prop :=
+  d = -1 \/ (0 <= d /\ nth_error fragment (Z.to_nat d) <> Some c_colon).
